@@ -111,7 +111,7 @@ DE_ARGS = {'deserialize_enum': ['name,variants,visitor'], 'deserialize_struct': 
 STR_METHODS = td.STR_METHODS
 VISITS = {'visit_bool(true)': ('FBool', True), 'visit_bool(false)': ('FBool', False), 'visit_some(self)': ('FSome',),
           'visit_newtype_struct(self)': ('FNewtype',)}
-INVALID_TYPES = ['Unexpected::UnitVariant,&"newtype variant",', 'Unexpected::UnitVariant,&"tuple variant",', 'Unexpected::UnitVariant,&"struct variant",',
+INVALID_TYPES = ['Unexpected::UnitVariant,&"newtype variant"', 'Unexpected::UnitVariant,&"tuple variant"', 'Unexpected::UnitVariant,&"struct variant"',
                  'Unexpected::Str(&s),&visitor']
 SEEDS = [(['seed', '.', 'deserialize', '(', '&', 'mut', '*', DE, ')'], 'SdValue'),
          (['seed', '.', 'deserialize', '(', DE, ')'], 'SdValue'),
@@ -266,7 +266,7 @@ class A(ts.P):
             return ('ok', x)
         if self.eats('Err(de::Error::invalid_type('):
             k = self.call_text(self.i - 1)
-            what = ''.join(self.t[self.i:k - 1])
+            what = ''.join(self.t[self.i:k - 1]).rstrip(',')
             if what not in INVALID_TYPES: raise Broken('de::Error::invalid_type(%s) outside the subset' % what)
             if what.startswith('Unexpected::Str') and scope.get('s') != 'str': raise Broken('Unexpected::Str(&s): s is not the parsed string')
             self.i = k
